@@ -262,9 +262,15 @@ def main():
                 ", ".join(r["version"] for r in dec), dec[0]["num_validators"], dec[0]["alloc_mib"], max(r["seconds"] for r in dec), dec[0].get("alloc_bytes_per_unit_of_count", 0)))
         for r in slow:
             R.notes.append("large-count probe %s: %s after %.1f s %s" % (r["version"], r["outcome"], r["seconds"], r.get("detail", "")))
-    if mu.get("panics"):
-        R.notes.append("verification PANICKED on %d mutated files (counted as rejected): %s" % (
-            len(mu["panics"]), json.dumps(mu["panics"][:3])))
+    pseen = set()
+    for s in (mu.get("panics") or []):
+        if s["key"] in pseen:
+            continue
+        pseen.add(s["key"])
+        R.violation(s["key"], "%s %s: altering %s (%s) makes verification PANIC instead of returning an error: %s" % (
+            s["source"]["kind"], s["source"]["version"], s["mutation"]["path"], s["mutation"]["alt"], s.get("orig")),
+            {"source": s["source"], "mutation": s["mutation"], "panic": s.get("orig"),
+             "how": "./check C12 --replay <this file> rebuilds the file, re-applies the alteration and runs VerifyHashes/VerifySignatures"})
 
     triples = len({k for k in mu["coverage"]})
     R.coverage["evaluations"] = ntv + mu["mutants"] + bchecks + mu["round_trips"] + ctcases
